@@ -592,13 +592,23 @@ def extract_sharedstate(rep: Report) -> str:
                 if a is not None and is_mutable_value(a):
                     shared.append((mod, f"{node.name}(default)", "mutable default argument"))
             params = {a.arg for a in node.args.args + node.args.kwonlyargs}
+            for dec in node.decorator_list:
+                if "cache" in pyast.unparse(dec):
+                    d["writes"].append((f"@{pyast.unparse(dec)[:40]} (memoised results are shared state)", node.lineno))
             for n in pyast.walk(node):
+                if isinstance(n, pyast.Attribute) and n.attr == "__dict__" and root_name(n) != "self":
+                    d["writes"].append((pyast.unparse(n)[:50], n.lineno))
                 if isinstance(n, pyast.Global):
                     d["writes"].append(("global " + ",".join(n.names), n.lineno))
                 if isinstance(n, pyast.Call):
                     fn = n.func
                     if isinstance(fn, pyast.Name):
                         d["calls"].add(fn.id)
+                        # setattr/delattr on anything but self writes to an argument, a class or a module: shared state
+                        if fn.id in ("setattr", "delattr") and n.args and root_name(n.args[0]) != "self":
+                            d["writes"].append((f"{fn.id}({pyast.unparse(n.args[0])[:40]}, ...)", n.lineno))
+                        if fn.id in ("globals", "vars", "locals"):
+                            d["writes"].append((f"{fn.id}() used", n.lineno))
                     elif isinstance(fn, pyast.Attribute):
                         d["calls"].add(fn.attr)
                         if fn.attr in MUTATORS:
@@ -654,7 +664,8 @@ def extract_sharedstate(rep: Report) -> str:
 
     return f"""/-! GENERATED by harness/extract.py: static scan of /repo/tumfl for shared mutable state - do not edit.
 `sharedObjects`: module-level / class-level mutable objects and mutable default arguments.
-`sharedWrites`: stores to, deletions from and mutating method calls on module-level mutable objects, and `global` statements, in functions reachable
+`sharedWrites`: stores to, deletions from and mutating method calls on module-level mutable objects, `global` statements, `setattr`/`delattr` on anything but `self`,
+uses of `globals()`/`vars()`/`__dict__` and caching decorators, in functions reachable
 (by called names) from the API entry points parse / format / resolve_recursive / the Lexer, Parser and Formatter methods.
 `formatArgWrites`: in formatter.py, attribute stores on anything but `self` and mutating method calls on attribute chains (they would modify the AST or the style). -/
 namespace Tumfl.Gen
